@@ -48,7 +48,7 @@ class Model:
 
 
 def new_tree(kind, t, in_order, original=None):
-    cls = bt.BTreeDict if kind == "dict" else bt.BTreeSet
+    cls = bt.BTreeDict if kind in ("dict", "dictchain") else bt.BTreeSet
     if original is not None:
         return cls(original=original, in_order=in_order)
     return cls(t=t, in_order=in_order)
@@ -163,10 +163,18 @@ def ops_for(n, N, with_replace=True, with_x=False):
 
 
 def build(kind, t, in_order, history):
+    """`dictchain`: after every operation the tree is frozen and replaced by a clone of
+    itself, i.e. every operation runs on a tree that shares *all* its nodes with a frozen
+    predecessor (the way the versions of a B-tree zone share structure)."""
     tree = new_tree(kind, t, in_order)
     model = Model()
+    k = "dict" if kind == "dictchain" else kind
     for op in history:
-        apply_op(kind, tree, model, tuple(op))
+        apply_op(k, tree, model, tuple(op))
+        if kind == "dictchain":
+            tree.make_immutable()
+            prev, tree = tree, copy.copy(tree)
+            tree._verif_pred = prev      # harness-only reference to the frozen predecessor
     return tree, model
 
 
@@ -184,9 +192,14 @@ def check_tree(kind, tree, model, t, probs, tag=""):
     inorder = []
     count = [0]
 
+    if tree.t != t:
+        probs.append((tag + "invariant/branching-factor", "tree.t is %r, the tree was created with t=%d" % (tree.t, t)))
+
     def walk(node, depth, is_root):
         ne = len(node.elts)
         count[0] += ne
+        if node.t != t:
+            probs.append((tag + "invariant/node-branching-factor", "a node has t=%r in a tree created with t=%d" % (node.t, t)))
         if ne > 2 * t - 1:
             probs.append((tag + "invariant/overfull", "node with %d keys (max %d)" % (ne, 2 * t - 1)))
         if not is_root and ne < t - 1:
@@ -380,9 +393,20 @@ def run_step(case):
     kind, t, in_order = case["kind"], case["t"], case["in_order"]
     tree, model = build(kind, t, in_order, case["history"])
     probs = []
+    k = "dict" if kind == "dictchain" else kind
+    pred = snap = None
+    if kind == "dictchain" and case["history"]:
+        # the frozen predecessor shares every node with `tree`
+        pred, pred_model = tree._verif_pred, model.copy()
+        snap = snapshot(pred)
     try:
-        probs += apply_op(kind, tree, model, tuple(case["op"]), case.get("via", 0))
-        check_tree(kind, tree, model, t, probs)
+        probs += apply_op(k, tree, model, tuple(case["op"]), case.get("via", 0))
+        check_tree(k, tree, model, t, probs)
+        if pred is not None:
+            ch = snapshot_changed(pred, snap)
+            if ch:
+                probs.append(("cow/predecessor-changed", "operation on a clone changed its frozen predecessor: %s" % ch))
+            check_tree("dict", pred, pred_model, t, probs, "predecessor/")
     except Exception as e:  # AssertionError, IndexError ... inside the implementation
         probs.append((crash_sig(e), "%s: %s" % (type(e).__name__, e)))
         return probs, None
@@ -663,7 +687,9 @@ def expand(state, col):
                     "shape": repr(shape(tree.root))}, limit=2)
     # transitions
     for op in ops_for(n, N, with_replace=True, with_x=True):
-        vias = (0, 1, 2) if (kind == "dict" and op[0] in "dm") else (0, 1) if op[0] in "irdm" else (0,)
+        vias = (0, 1, 2) if (kind in ("dict", "dictchain") and op[0] in "dm") else (0, 1) if op[0] in "irdm" else (0,)
+        if kind == "dictchain":
+            vias = (0,)
         for via in vias:
             case = dict(base, mode="step", op=list(op), via=via)
             probs, canon = run_step(case)
@@ -673,6 +699,8 @@ def expand(state, col):
                 col.violation("C19/" + s, w, case)
             if canon is not None and via == 0 and op[0] in "idm":
                 yield (cfg[:3], canon), (cfg, history + (op,))
+    if kind == "dictchain":
+        return
     if n <= Nclone:
         case = dict(base, mode="clone")
         probs = run_clone(case)
@@ -711,12 +739,14 @@ def run(ctx):
     if ctx.quick:
         cfgs = [("dict", 3, False, 20, 11, 20, 8), ("dict", 3, True, 19, 9, 19, 7),
                 ("dict", 4, False, 17, 9, 17, 7), ("dict", 4, True, 16, 8, 16, 6),
-                ("set", 3, False, 12, 8, 12, 6), ("set", 3, True, 11, 7, 11, 6)]
+                ("set", 3, False, 12, 8, 12, 6), ("set", 3, True, 11, 7, 11, 6),
+                ("dictchain", 3, False, 18, 0, 0, 0), ("dictchain", 3, True, 15, 0, 0, 0)]
     else:
         cfgs = [("dict", 3, False, 27, 19, 27, 13), ("dict", 3, True, 25, 18, 25, 12),
                 ("dict", 4, False, 24, 16, 24, 11), ("dict", 4, True, 23, 15, 23, 11),
                 ("set", 3, False, 19, 12, 19, 9), ("set", 3, True, 18, 11, 18, 9),
-                ("set", 4, False, 16, 10, 16, 8)]
+                ("set", 4, False, 16, 10, 16, 8),
+                ("dictchain", 3, False, 24, 0, 0, 0), ("dictchain", 3, True, 22, 0, 0, 0), ("dictchain", 4, False, 20, 0, 0, 0)]
     ctx.extra["configs"] = [dict(zip(("kind", "t", "in_order", "max_keys", "clone_upto", "cursor_upto", "parked_upto"), c))
                             for c in cfgs]
     init = [((c[:3], 0), (c, ())) for c in cfgs]
